@@ -351,7 +351,30 @@ pub fn gen_sg(rng: &mut Rng) -> SG {
         }
         rules.push(SRule { name: NNAMES[i].to_string(), vec_annotation: false, meta: if rng.chance(0.4) { rand_meta(rng, 0) } else { Meta::default() }, alts });
     }
-    SG { terms, rules }
+    let mut g = SG { terms, rules };
+    if g.rules.len() >= 3 && rng.chance(0.05) {
+        // a user rule that carries the name of a sugar helper of another symbol (`A1` next to `A+`)
+        let mut helper_names: Vec<(String, Sym)> = vec![];
+        for r in &g.rules {
+            for a in &r.alts {
+                for it in &a.items {
+                    if let Some((op, _)) = it.rep {
+                        let base = g.sym_name(&it.sym);
+                        helper_names.push((format!("{}{}", base, match op { '+' => "1", '*' => "0", _ => "Opt" }), it.sym));
+                    }
+                }
+            }
+        }
+        if !helper_names.is_empty() {
+            let (h, base) = rng.pick(&helper_names).clone();
+            let cand: Vec<usize> = (1..g.rules.len()).filter(|i| Sym::N(*i) != base).collect();
+            if !cand.is_empty() && !g.rules.iter().any(|r| r.name == h) {
+                let k = *rng.pick(&cand);
+                g.rules[k].name = h;
+            }
+        }
+    }
+    g
 }
 
 fn assoc_code(a: Option<Assoc>) -> u8 {
@@ -591,8 +614,10 @@ pub fn run_case(g: &SG, wd: &Workdir, rep: &mut Rep, maxlen: usize, only_input: 
         } else if c.outcome.is_panic() {
             rep.count("compiler_panics_not_judged_here", 1);
         } else {
-            rep.count(if msg.contains("Infinite recursion") { "rejected:infinite-recursion" } else if msg.contains("First set empty") { "rejected:unproductive" } else { "rejected:other" }, 1);
-            if !(msg.contains("Infinite recursion") || msg.contains("First set empty")) {
+            // a user symbol named like a sugar helper may be refused (the alternative is to merge it into the helper)
+            let collision = msg.contains("has the name of the rule created for a repetition");
+            rep.count(if msg.contains("Infinite recursion") { "rejected:infinite-recursion" } else if msg.contains("First set empty") { "rejected:unproductive" } else if collision { "rejected:helper-name-collision" } else { "rejected:other" }, 1);
+            if !(msg.contains("Infinite recursion") || msg.contains("First set empty") || collision) {
                 rep.harness_error(&format!("unexpected rejection: {}", msg), case0(json!(null)));
             }
         }
